@@ -67,55 +67,40 @@ Proof.
 Qed.
 
 (* --- complete_next / complete_previous with any count ------------------------- *)
-Lemma complete_next_count s cs i count w :
-  Inv s -> menu s cs -> cs_idx cs = Some i -> i <> len (cs_comps cs) - 1 -> 0 <= i + count ->
-  exists s', step s (CompleteNext count w) = (s', 0) /\ Inv s' /\
-    menu s' (cs_with_idx cs (Some (Z.min (len (cs_comps cs) - 1) (i + count)))) /\
-    ntp (cs_with_idx cs (Some (Z.min (len (cs_comps cs) - 1) (i + count)))) = Some (text s', cur s').
-Proof.
-  intros HI M Hi Hl Hc. pose proof M as (Hcs & Hok & Hn). cbn [step]. unfold complete_next. rewrite Hcs, Hi.
-  destruct (i =? len (cs_comps cs) - 1) eqn:E; [lia|].
-  apply gtc_menu; auto. unfold idx_ok in Hok. rewrite Hi in Hok. lia.
-Qed.
+Definition clamp (n x : Z) : Z := Z.max 0 (Z.min (n - 1) x).
 
-Lemma complete_next_count_raises s cs i count w :
-  cst s = Some cs -> cs_comps cs <> [] -> cs_idx cs = Some i -> i <> len (cs_comps cs) - 1 -> i + count < 0 ->
-  step s (CompleteNext count w) = (s, 1).
+Lemma clamp_range n x : 1 <= n -> 0 <= clamp n x < n.
+Proof. unfold clamp. lia. Qed.
+
+Lemma complete_next_count s cs i count w :
+  Inv s -> menu s cs -> cs_idx cs = Some i -> i <> len (cs_comps cs) - 1 ->
+  exists s', step s (CompleteNext count w) = (s', 0) /\ Inv s' /\
+    menu s' (cs_with_idx cs (Some (clamp (len (cs_comps cs)) (i + count)))) /\
+    ntp (cs_with_idx cs (Some (clamp (len (cs_comps cs)) (i + count)))) = Some (text s', cur s').
 Proof.
-  intros Hcs Hne Hi Hl Hc. cbn [step]. unfold complete_next. rewrite Hcs, Hi.
+  intros HI M Hi Hl. pose proof M as (Hcs & Hok & Hn). cbn [step]. unfold complete_next. rewrite Hcs, Hi.
   destruct (i =? len (cs_comps cs) - 1) eqn:E; [lia|].
-  unfold go_to_completion. rewrite Hcs. unfold go_to_index. destruct (cs_comps cs) as [|c r] eqn:Ec; [congruence|].
-  replace ((0 <=? Z.min (len (c :: r) - 1) (i + count)) && (Z.min (len (c :: r) - 1) (i + count) <? len (c :: r))) with false;
-    [reflexivity|]. symmetry. apply andb_false_iff. left. lia.
+  apply gtc_menu; auto. apply clamp_range. exact Hn.
 Qed.
 
 Lemma complete_prev_count s cs i count w :
-  Inv s -> menu s cs -> cs_idx cs = Some i -> i <> 0 -> i - count < len (cs_comps cs) ->
+  Inv s -> menu s cs -> cs_idx cs = Some i -> i <> 0 ->
   exists s', step s (CompletePrev count w) = (s', 0) /\ Inv s' /\
-    menu s' (cs_with_idx cs (Some (Z.max 0 (i - count)))) /\
-    ntp (cs_with_idx cs (Some (Z.max 0 (i - count)))) = Some (text s', cur s').
+    menu s' (cs_with_idx cs (Some (clamp (len (cs_comps cs)) (i - count)))) /\
+    ntp (cs_with_idx cs (Some (clamp (len (cs_comps cs)) (i - count)))) = Some (text s', cur s').
 Proof.
-  intros HI M Hi Hl Hc. pose proof M as (Hcs & Hok & Hn). cbn [step]. unfold complete_prev. rewrite Hcs, Hi.
+  intros HI M Hi Hl. pose proof M as (Hcs & Hok & Hn). cbn [step]. unfold complete_prev. rewrite Hcs, Hi.
   destruct (i =? 0) eqn:E; [lia|].
-  apply gtc_menu; auto. lia.
+  replace (Z.min (len (cs_comps cs) - 1) (Z.max 0 (i - count))) with (clamp (len (cs_comps cs)) (i - count))
+    by (unfold clamp; lia).
+  apply gtc_menu; auto. apply clamp_range. exact Hn.
 Qed.
 
-Lemma complete_prev_count_raises s cs i count w :
-  cst s = Some cs -> cs_comps cs <> [] -> cs_idx cs = Some i -> i <> 0 -> len (cs_comps cs) <= i - count ->
-  step s (CompletePrev count w) = (s, 1).
-Proof.
-  intros Hcs Hne Hi Hl Hc. cbn [step]. unfold complete_prev. rewrite Hcs, Hi.
-  destruct (i =? 0) eqn:E; [lia|].
-  unfold go_to_completion. rewrite Hcs. unfold go_to_index. destruct (cs_comps cs) as [|c r] eqn:Ec; [congruence|].
-  replace ((0 <=? Z.max 0 (i - count)) && (Z.max 0 (i - count) <? len (c :: r))) with false;
-    [reflexivity|]. symmetry. apply andb_false_iff. right. lia.
-Qed.
-
-(* reachable: menu of two, first selected, complete_next(count=-1) *)
-Lemma negative_count_raises :
+(* before c676c2a: menu of two, first selected, complete_next(count=-1) raised *)
+Lemma negative_count_pinned_raises :
   exists c t p ls count, 0 <= p <= len t /\
     (exists cs, cst (reach c t p ls) = Some cs /\ ntp cs = Some (text (reach c t p ls), cur (reach c t p ls))) /\
-    step (reach c t p ls) (CompleteNext count false) = (reach c t p ls, 1).
+    complete_next_pinned (reach c t p ls) count false = (reach c t p ls, 1).
 Proof.
   exists w_cfg, [97], 1, [InstallMenu [([97; 98], -1); ([97; 99], -1)]], (-1).
   split; [unfold len; cbn; lia|]. split; [vm_compute; eexists; split; reflexivity|vm_compute; reflexivity].
@@ -131,39 +116,23 @@ Proof.
 Qed.
 
 Lemma reach_next_count c t p ls cs i count w : 0 <= p <= len t ->
-  cst (reach c t p ls) = Some cs -> cs_idx cs = Some i -> i <> len (cs_comps cs) - 1 -> 0 <= i + count ->
+  cst (reach c t p ls) = Some cs -> cs_idx cs = Some i -> i <> len (cs_comps cs) - 1 ->
   exists s', step (reach c t p ls) (CompleteNext count w) = (s', 0) /\
-    cst s' = Some (cs_with_idx cs (Some (Z.min (len (cs_comps cs) - 1) (i + count)))) /\
-    ntp (cs_with_idx cs (Some (Z.min (len (cs_comps cs) - 1) (i + count)))) = Some (text s', cur s').
+    cst s' = Some (cs_with_idx cs (Some (clamp (len (cs_comps cs)) (i + count)))) /\
+    ntp (cs_with_idx cs (Some (clamp (len (cs_comps cs)) (i + count)))) = Some (text s', cur s').
 Proof.
-  intros H Hc Hi Hl Hn. destruct (reach_menu c t p ls cs i H Hc Hi) as (HI & M).
-  destruct (complete_next_count _ cs i count w HI M Hi Hl Hn) as (s' & A & _ & (B & _) & C). eauto.
+  intros H Hc Hi Hl. destruct (reach_menu c t p ls cs i H Hc Hi) as (HI & M).
+  destruct (complete_next_count _ cs i count w HI M Hi Hl) as (s' & A & _ & (B & _) & C). eauto.
 Qed.
 
 Lemma reach_prev_count c t p ls cs i count w : 0 <= p <= len t ->
-  cst (reach c t p ls) = Some cs -> cs_idx cs = Some i -> i <> 0 -> i - count < len (cs_comps cs) ->
+  cst (reach c t p ls) = Some cs -> cs_idx cs = Some i -> i <> 0 ->
   exists s', step (reach c t p ls) (CompletePrev count w) = (s', 0) /\
-    cst s' = Some (cs_with_idx cs (Some (Z.max 0 (i - count)))) /\
-    ntp (cs_with_idx cs (Some (Z.max 0 (i - count)))) = Some (text s', cur s').
+    cst s' = Some (cs_with_idx cs (Some (clamp (len (cs_comps cs)) (i - count)))) /\
+    ntp (cs_with_idx cs (Some (clamp (len (cs_comps cs)) (i - count)))) = Some (text s', cur s').
 Proof.
-  intros H Hc Hi Hl Hn. destruct (reach_menu c t p ls cs i H Hc Hi) as (HI & M).
-  destruct (complete_prev_count _ cs i count w HI M Hi Hl Hn) as (s' & A & _ & (B & _) & C). eauto.
-Qed.
-
-Lemma reach_next_count_outside c t p ls cs i count w : 0 <= p <= len t ->
-  cst (reach c t p ls) = Some cs -> cs_idx cs = Some i -> i <> len (cs_comps cs) - 1 -> i + count < 0 ->
-  step (reach c t p ls) (CompleteNext count w) = (reach c t p ls, 1).
-Proof.
-  intros H Hc Hi Hl Hn. destruct (reach_menu c t p ls cs i H Hc Hi) as (_ & (_ & _ & M)).
-  apply (complete_next_count_raises _ cs i); auto. intros E. rewrite E in M. change (len (@nil completion)) with 0 in M. lia.
-Qed.
-
-Lemma reach_prev_count_outside c t p ls cs i count w : 0 <= p <= len t ->
-  cst (reach c t p ls) = Some cs -> cs_idx cs = Some i -> i <> 0 -> len (cs_comps cs) <= i - count ->
-  step (reach c t p ls) (CompletePrev count w) = (reach c t p ls, 1).
-Proof.
-  intros H Hc Hi Hl Hn. destruct (reach_menu c t p ls cs i H Hc Hi) as (_ & (_ & _ & M)).
-  apply (complete_prev_count_raises _ cs i); auto. intros E. rewrite E in M. change (len (@nil completion)) with 0 in M. lia.
+  intros H Hc Hi Hl. destruct (reach_menu c t p ls cs i H Hc Hi) as (HI & M).
+  destruct (complete_prev_count _ cs i count w HI M Hi Hl) as (s' & A & _ & (B & _) & C). eauto.
 Qed.
 
 Lemma reach_reset c t p ls t' p' : 0 <= p' <= len t' ->
